@@ -33,7 +33,25 @@ type TileLog struct {
 	hold     bool // answer 503 to everything (log unavailable)
 	hangTile int  // > 0: the n-th tile request from now is accepted and never answered (until the client gives up)
 	hung     int
+	// damageFirst: the first 200 answer to each complete (256-wide) tile carries one flipped bit; every
+	// later answer to the same path is correct (a log that served one bad response and recovered)
+	damageFirst bool
+	served      map[string]bool
+	damaged     int
 }
+
+// DamageFirstFull makes the first answer to every complete tile wrong by one bit (later answers are correct).
+func (l *TileLog) DamageFirstFull(on bool) {
+	l.mu.Lock()
+	l.damageFirst, l.served = on, map[string]bool{}
+	l.mu.Unlock()
+}
+
+// SetKey changes the key the log signs its checkpoints with.
+func (l *TileLog) SetKey(k *refnote.SignKey) { l.mu.Lock(); l.Key = k; l.mu.Unlock() }
+
+// Damaged reports how many damaged tile answers were served.
+func (l *TileLog) Damaged() int { l.mu.Lock(); defer l.mu.Unlock(); return l.damaged }
 
 // HangTile makes the n-th tile request from now (n >= 1) hang until its request context ends.
 func (l *TileLog) HangTile(n int) { l.mu.Lock(); l.hangTile = n; l.mu.Unlock() }
@@ -179,6 +197,11 @@ serve:
 	for i := 0; i < w; i++ {
 		h := l.tree.Complete(uint8(8*lvl), n*256+uint64(i))
 		b = append(b, h[:]...)
+	}
+	if l.damageFirst && w == 256 && !l.served[p] {
+		l.served[p] = true
+		l.damaged++
+		b[len(b)/2] ^= 0x10
 	}
 	return mk(200, b)
 }
